@@ -435,7 +435,7 @@ TAG_SPECIAL_OLD = ["NA", "NaN", "None", "Null", "True", "N-A", "1", "007", "1e3"
 WORDS = ["a", "an", "the", "item", "value", "of", "something", "Sensory", "event", "used", "for", "testing", "unit",
          "class", "node", "with", "label", "x1", "42", "3.14", "e.g.", "i.e.", "See", "also", "NOT", "time", "rate"]
 NA_WORDS = ["café", "中文", "Straße", "naïve", "Ωmega", "日本", "ñandú", "übung"]
-PUNCT_NEW = [",", ";", ":", ".", "(x)", "(a, b)", "=", "a=b", "'x'", "'", "\"x\"", "\"", "<b>", "a<b", ">", "<", "&",
+PUNCT_NEW = ["\\n", "\\nu", "\\t", "C:\\new", ",", ";", ":", ".", "(x)", "(a, b)", "=", "a=b", "'x'", "'", "\"x\"", "\"", "<b>", "a<b", ">", "<", "&",
              "&amp;", "&lt;", "|", "*", "**", "#", "\\", "~", "!", "?", "@", "$", "%", "^", "+", "-", "_", "/", "`",
              "a/b", "x_y", "--", "...", "'''", "''"]
 PUNCT_OLD = [",", ";", ":", ".", "(x)", "(a, b)", "+", "-", "_", "/", "^", "a/b", "x_y", "--", "...", "1:2"]
@@ -996,7 +996,9 @@ def _corpus():
                   "children": [{"tag": "node", "name": "Zz-rooted-child", "desc": "d", "attrs": [], "children": []}]}}]})
     # regression: whole-cell texts that CSV machinery may take for a missing value, as descriptions of a node, a value
     # taking child, a unit class, a unit and a value class; saved under a dotted folder name
-    sp = list(K.CELL_SPECIAL)
+    # ... and texts holding a backslash followed by a letter an escaping convention could claim (\\n, \\t, \\r, \\\\)
+    sp = list(K.CELL_SPECIAL) + ["the Greek letter \\nu", "C:\\parts\\new\\index.txt", "a\\tb", "\\n", "ends with \\",
+                                 "\\\\n doubled", "\\r\\n"]
     cs.append({"kind": "edit", "schema": "HED8.3.0.xml", "base": "merged", "files": True, "tsv_loc": "HED8.3.0", "file_stem": "HED8.3.0", "ops": [
         {"op": "add", "kind": "witness", "sec": "schema", "path": [], "at": None,
          "elem": {"tag": "node", "name": "Zz-cell-%d" % i, "desc": t, "attrs": [], "children": (
@@ -1181,6 +1183,33 @@ def systematic_inmem_case(schema):
     return {"kind": "edit", "schema": schema, "base": "merged", "ops": ops, "files": False, "inmem": True}
 
 
+def systematic_units_case(schema, base="merged"):
+    """A partnered library that adds a unit to EVERY unit class of its standard schema and also owns unit classes with
+    attributes and a description (in file order before and after them): whatever order the writer visits the classes
+    in, a standard class holding library units is followed by a library class with its own properties."""
+    c = ctx_for(schema, base)
+    lib = [["inLibrary", [c.lib]]] if base == "merged" else []
+    ops = []
+
+    def own_class(i):
+        return {"op": "add", "kind": "add_unit_class", "sec": "unitClassDefinitions", "path": [], "at": None,
+                "elem": {"tag": "unitClassDefinition", "name": f"zzown{i}Units", "desc": f"library unit class {i} with properties",
+                         "attrs": [["defaultUnits", [f"zzown{i}"]]] + lib,
+                         "children": [{"tag": "unit", "name": f"zzown{i}", "desc": "its unit", "attrs": [["SIUnit", []]] + lib}]}}
+    ops.append(own_class(1))
+    std = [d for d in c.merged_root.iter("unitClassDefinition") if not any(a[0] == "inLibrary" for a in _attrs(d))]
+    for i, d in enumerate(std):
+        if base == "merged":
+            ops.append({"op": "add", "kind": "add_unit_std_class", "sec": "unitClassDefinitions", "path": [_name(d)], "at": None,
+                        "elem": {"tag": "unit", "name": f"zzstd{i}", "desc": None, "attrs": lib}})
+        else:
+            ops.append({"op": "add", "kind": "add_unit_std_class", "sec": "unitClassDefinitions", "path": [], "at": None,
+                        "elem": {"tag": "unitClassDefinition", "name": _name(d),
+                                 "children": [{"tag": "unit", "name": f"zzstd{i}", "desc": None, "attrs": []}]}})
+    ops.append(own_class(2))
+    return {"kind": "edit", "schema": schema, "base": base, "ops": ops, "files": False}
+
+
 def gen_cases(rng, tier):
     """Deterministic (from rng) list of JSON-serialisable cases: bundled schemas, edits, malformed edits."""
     have = set(bundled())
@@ -1196,6 +1225,10 @@ def gen_cases(rng, tier):
         for _ in range(n):
             boundary = "any" if rng.random() < 0.16 else None
             cases.append(gen_edit_case(random.Random(rng.getrandbits(64)), schema, base, boundary))
+    for schema, base in ([("HED_score_2.0.0.xml", "merged"), ("HED_testlib_2.0.0.xml", "unmerged")] +
+                         ([("HED_score_1.1.0.xml", "merged"), ("HED_testlib_3.0.0.xml", "merged")] if tier == "thorough" else [])):
+        if schema in have:
+            cases.append(systematic_units_case(schema, base))
     # edits applied to the loaded schema object
     for schema in (["HED8.3.0.xml", "HED8.0.0.xml"] if tier == "thorough" else ["HED8.3.0.xml"]):
         if schema in have:
